@@ -202,10 +202,16 @@ class TiledStridedLayoutAttr(MemRefLayoutAttr, Data[TiledStridedLayout]):
         # if everything is dynamic, default to the most right stride (row-major-like)
         max_key = (tsl.dimension() - 1, tsl.tstrides[-1].depth() - 1)
         max_value = 0
+        max_bound = 0
         for dim, depth, stride in self.data:
-            if stride.step and stride.step > max_value:
+            if not stride.step:
+                continue
+            # strides can share a step (unit bounds): the one with the larger bound spans the larger block
+            bound = stride.bound if stride.bound is not None else float("inf")
+            if (stride.step, bound) > (max_value, max_bound):
                 max_key = (dim, depth)
                 max_value = stride.step
+                max_bound = bound
         max_value = max_value * el_bytes
 
         # generate ops for the maximum
